@@ -197,7 +197,10 @@ class BaseLoader(ABC):
         # resource is not accessible.
         url = str(url)
         if url.startswith("package:"):
-            _, package, filename = url.split(":", 2)
+            try:
+                _, package, filename = url.split(":", 2)
+            except ValueError:
+                self._raise_open_error(url, "not of the form package:NAME:PATH")
             file = openPackageResource(package, filename)
         else:
             try:
@@ -277,8 +280,18 @@ class BaseLoader(ABC):
 
 
 def openPackageResource(package, path):
-    __import__(package)
+    try:
+        __import__(package)
+    except (ImportError, ValueError) as e:
+        raise ZConfig.SchemaResourceError(
+            f"could not load package {package}: {str(e)}",
+            filename=path,
+            package=package)
     pkg = sys.modules[package]
+    if not hasattr(pkg, "__path__"):
+        raise ZConfig.SchemaResourceError(
+            "import name does not refer to a package",
+            filename=path, package=package)
     try:
         loader = pkg.__loader__
     except AttributeError:
